@@ -189,7 +189,7 @@ func stmtEvents(fd *ast.FuncDecl) []string {
 }
 
 func init() {
-	register(&Rule{ID: "C16.R4", Props: []string{"C16", "C03", "C01"}, Min: 10, Needs: NeedTool,
+	register(&Rule{ID: "C16.R4", Props: []string{"C16", "C03", "C01", "C06"}, Min: 10, Needs: NeedTool,
 		Doc: "emitter siblings agree: genWriteVar and genReadVar dispatch over the same type cases; paired container emitters feed their recursive element emitters with the same element tags (list 0; map key 0 / value 1); the tags the proxy emitter writes arguments under are the tags the dispatcher emitter reads them under and vice versa for results (argument k at k+1, return value 0); the loop-counter suffix is advanced before an emitter recurses; per-entry temporaries of the map reader are declared inside the emitted loop",
 		Run: func(r *R) {
 			fns := genFuncs(r.w)
